@@ -4,6 +4,8 @@
 
 use vcommon::{Report, ShardArgs};
 
+mod c16;
+mod c17;
 mod c19;
 mod c20;
 
@@ -15,6 +17,8 @@ fn main() {
 		.build()
 		.expect("runtime");
 	match args.prop.as_str() {
+		"C16" => c16::run(&args, &mut rep),
+		"C17" => c17::run(&args, &mut rep),
 		"C19" => c19::run(&args, &mut rep),
 		"C20" => rt.block_on(c20::run(&args, &mut rep)),
 		other => {
